@@ -107,15 +107,17 @@ class Spec:
     def adjacency(self):
         return [{ns for a in self.acts[s] for ns in self.T[s][a]} for s in range(self.n)]
 
-    def reachable(self, expand_absorbing=False):
+    def reachable(self, expand_absorbing=False, expand_initial_absorbing=True):
         """Positive-probability closure from the initial support; successors of explicitly
-        absorbing states are not expanded (that is what the functional `is_absorbing` says)."""
+        absorbing states are not expanded (that is what the functional `is_absorbing` says).
+        Whether an absorbing state that is itself in the initial support is expanded is left open
+        by the property (expand_initial_absorbing selects)."""
         S0 = [s for s, p in self.init.items() if p > 0]
         seen = set(S0)
         st = list(S0)
         while st:
             u = st.pop()
-            if u in self.abs_explicit and not expand_absorbing and u not in S0:
+            if u in self.abs_explicit and not expand_absorbing and not (expand_initial_absorbing and u in S0):
                 continue
             for a in self.acts[u]:
                 for v in self.T[u][a]:
